@@ -123,7 +123,9 @@ def _mfield(rng, kind):
         if k < 0.15:
             return b"none"
         if k < 0.2:
-            return rng.choice([b"#dev", b"/dev/root", b"rootfs", b"none ", b"nonee"])
+            return rng.choice([b"/dev/root", b"rootfs", b"none ", b"nonee", b"/dev/sda1"])
+        if k < 0.21:
+            return rng.choice([b"#dev", b"a#b", b"", b"", b"/dev/disk/by-label/c#"])
     if kind == "opts" and k < 0.3:
         return rng.choice([b"rw", b"rw,relatime", b"ro,noatime,errors=remount-ro"])
     n = rng.choice([1, 2, 5, 9, 30, 100] if rng.random() < 0.985 else [3000, 4090, 5000])
@@ -132,12 +134,16 @@ def _mfield(rng, kind):
         s = _rnd_bytes(rng, n, MNT_ALPH)
     elif r < 0.8:
         s = _rnd_bytes(rng, n)
+        if kind == "dev":
+            s = s.replace(b"#", b"+")
     elif r < 0.9:
         s = ("\u00e9\u4e16\U0001f600" * n).encode()[:n]
     else:
         s = _rnd_bytes(rng, n, b"\\0141234 \t")
-    if kind == "dev" and not s.startswith(b"/") and rng.random() < 0.5:
-        s = b"/" + s
+    if kind == "dev":
+        s = s.replace(b"#", b"+")      # '#' in a device name is a finding class of its own: only the explicit choices above
+        if not s.startswith(b"/") and rng.random() < 0.5:
+            s = b"/" + s
     return s
 
 
@@ -152,8 +158,17 @@ def _esc(b):
     return bytes(out)
 
 
+def _esc_dev(b):
+    return _esc(b).replace(b"#", b"\\043")
+
+
+def _fields_len(e):
+    """bytes of the printed line up to the end of the options (the kernel escapes '#' in the device name too)"""
+    return len(_esc_dev(bytes.fromhex(e[0]))) + sum(len(_esc(bytes.fromhex(x))) for x in e[1:]) + 3
+
+
 def _line_len(e):
-    return sum(len(_esc(bytes.fromhex(x))) for x in e) + 3 + 5
+    return _fields_len(e) + 5
 
 
 def _is_utf8(b):
@@ -333,8 +348,12 @@ def gen_cases(rng, tier):
             rng.shuffle(fs)
         allp = rng.random() < 0.4
         cls = "mounts-all" if allp else "mounts"
-        if any(_line_len(e) > 4095 for e in ents):
+        if any(_fields_len(e) > 4095 for e in ents):
             cls = "mounts-longline"
+        elif any(e[0] == "" for e in ents):
+            cls = "mounts-emptydev"
+        elif any(b"#" in bytes.fromhex(e[0]) for e in ents):
+            cls = "mounts-hashdev"
         elif any(not _is_utf8(bytes.fromhex(e[2])) or not _is_utf8(bytes.fromhex(e[3])) for e in ents):
             cls = "mounts-nonutf8"
         cases.append({"kind": "mounts", "cls": cls, "all": allp, "fs": fs, "ents": ents})
@@ -472,8 +491,12 @@ def finding_key(case, coq):
             if struct.unpack_from("<h", r)[0] == 7 and (0 not in r[8:40] or 0 not in r[44:76] or 0 not in r[76:332]):
                 return "users-fullwidth-field"
     if k == "mounts":
-        if any(_line_len(e) > 4095 for e in case["ents"]):
+        if any(_fields_len(e) > 4095 for e in case["ents"]):
             return "mounts-line-over-4095"
+        if any(e[0] == "" for e in case["ents"]):
+            return "mounts-empty-device"
+        if any(b"#" in bytes.fromhex(e[0]) for e in case["ents"]):
+            return "mounts-hash-device"
         if not FIXED_MNT_UTF8 and any(not _is_utf8(bytes.fromhex(e[2])) or not _is_utf8(bytes.fromhex(e[3])) for e in case["ents"]):
             return "mounts-nonutf8-type-opts"
     if k == "entry" and case["ep"] == "proc_ioprio_set" and len(case["args"]) == 3:
@@ -701,17 +724,20 @@ MANIFEST = {
             "as the code is after the repairs e85352e/a87b45e/301715a/0d52d5b: users() returns for every file of well-formed login records "
             "exactly user/terminal/host(:0 -> localhost)/time/pid of the USER_PROCESS records, strings cut at the field width, and never reads "
             "outside a record; PSUTIL_STRNCPY and the MAC formatter write only inside their buffers and terminate them, for every source string; "
+            "the copied interface name is the first 15 bytes of the argument and the MAC text is the lower-case hex pairs joined by ':' "
+            "(padded with :00 to six bytes by net_if_addrs), for every input and every previous buffer content; "
             "CPU_SET on any long touches bit < 1024 or nothing; the getaffinity sizing loop terminates without int overflow for every kernel "
             "answer; check_pid_range and the argument conversion of all 17 entry points yield a value, a call into the OS or "
             "TypeError/OverflowError/ValueError/UnicodeError for every argument tuple -- no undefined behaviour; ionice() rejects an ioclass "
             "outside 0..3 and hands class*2^13+data to the kernel; the ethtool speed is defined for every answer; mount-table decoding "
-            "round-trips the kernel's escapes for every entry and disk_partitions(all=True) returns every entry whatever bytes it contains "
-            "(refuted for lines over 4095 bytes: known finding). The repaired defects are kept as refuted theorems about the legacy variants "
+            "round-trips the kernel's escapes for every entry; for every printed /proc/filesystems and every mounts table "
+            "disk_partitions() keeps exactly the entries with a device and a disk-backed type (all=True: every entry, whatever bytes it "
+            "contains), for lines up to 4095 bytes; above that exactly the first 4095 bytes are parsed (boundary theorems; known finding), "
+            "a '#' in the device name comes back as \\043 and an empty device name shifts the fields (known findings, refuted theorems). The repaired defects are kept as refuted theorems about the legacy variants "
             "of the model (full-width utmp fields read across field borders and past the record; signed 'ioclass << 13' and 'speed_hi << 16'; "
             "strict UTF-8 on mount type/options). The compiled code is tied to the model by running the real extension built with clang "
             "ASan+UBSan on generated utmp files, mount tables and an argument sweep over all entry points, each call in a forked child; a "
             "sanitizer report is a failing input.",
-    "note": "Partial by nature: memory safety of the compiled C is observed (sanitizers) on the generated runs, not proved; the all=False filter is "
-            "proved for any type set agreeing with the kernel list (the /proc/filesystems parse is tied by the run only). Trusted: Coq kernel + "
+    "note": "Partial by nature: memory safety of the compiled C is observed (sanitizers) on the generated runs, not proved; Trusted: Coq kernel + "
             "vm_compute; hand-written model coq/C17/Model.v; record formats in coq/C17/Spec.v; glibc; the sanitizer runtime; the harness.",
 }
